@@ -653,12 +653,23 @@ func c17Caller(c *Ctx, ser *ssa.Function, spawns []*ssa.Call) {
 					}
 					arg := call.Call.Args[i]
 					k5 := FnName(fn) + ":protect-argument"
-					leaves := p.Leaves(arg, func(v ssa.Value) FlowAct {
-						if cc, _, ok := CallResult(v); ok && strings.HasSuffix(CalleeName(cc.Common()), "URLConfig).Bool") {
-							return Stop
+					// a flag threaded through a parameter of a private, directly-called function stands for what its
+					// callers pass
+					srcs := []ssa.Value{arg}
+					if prm, isP := Unwrap(arg).(*ssa.Parameter); isP {
+						if ca := p.callerArgs(prm); len(ca) > 0 {
+							srcs = ca
 						}
-						return Descend
-					})
+					}
+					var leaves []ssa.Value
+					for _, src := range srcs {
+						leaves = append(leaves, p.Leaves(src, func(v ssa.Value) FlowAct {
+							if cc, _, ok := CallResult(v); ok && strings.HasSuffix(CalleeName(cc.Common()), "URLConfig).Bool") {
+								return Stop
+							}
+							return Descend
+						})...)
+					}
 					good := len(leaves) > 0
 					why := ""
 					nCfg := 0
